@@ -36,6 +36,13 @@ DIRTY = [
     ("error-caught-deep", '{[2, call {[6, call {1 + "a"}, 7]}, 3]; 4} except__ {5}'),
     ("while", "gW = 0; while {gW < 3} do {[gW, gW]; gW = gW + 1}"),
     ("while-value", "gW = 0; while {gW < 2} do {gW = gW + 1; gW}"),
+    # one statement per block and more than three iterations: nothing between two iterations clears the region but the restart itself
+    ("while-single", "gW = 0; while {gW < 6} do {call {gW = gW + 1; gW}}"),
+    ("while-single-cond-call", "gW = 0; while {call {gW < 6}} do {gW = gW + 1; gW}"),
+    ("for-single", 'for "_i" from 0 to 5 do {_i + 1}'),
+    ("foreach-single", "{_x + 1} forEach [1, 2, 3, 4, 5, 6]"),
+    ("count-single", "{_x > 1} count [1, 2, 3, 4, 5, 6]"),
+    ("apply-single", "[1, 2, 3, 4, 5, 6] apply {_x + 1}"),
     ("for", 'for "_i" from 0 to 2 do {[_i, 1]; _i}'),
     ("foreach", "{[_x, 1]; _x} forEach [1, 2, 3]"),
     ("count", "{[_x]; _x > 1} count [1, 2, 3]"),
